@@ -12,6 +12,7 @@ from ..fs import FsSeam, read_bytes
 from .. import specs
 
 name = 'iter'
+RAISE_ORACLE = 'I15.raise'
 MODEL_NAMES = ['m', 'm2', 'mod el']
 REAL_ALGOS = ['simple_bounds', 'TR-newton', 'LS-BFGS', 'scipy', 'TR-BFGS', 'LS-newton',
               'simple_bounds_newton', 'simple_bounds_BFGS']
